@@ -231,7 +231,11 @@ def run_case(c: dict, tmp: str) -> List[dict]:
     # import of the specification's file with the given index base
     try:
         write_tokens(p, c["tokens"])
-        back = ttb.import_data(p, index_base=c["base"]) if c["base"] != 1 else ttb.import_data(p)
+        # the type of the index base is a presentation (rotated with a hash of the file): a Python integer or a numpy
+        # integer scalar, also of a narrow type that does not hold the subscripts of the file
+        import hashlib
+        bt = [int, np.int64, np.uint8, np.int8, np.int16][hashlib.md5(json.dumps(c["tokens"]).encode()).digest()[3] % 5]
+        back = ttb.import_data(p, index_base=bt(c["base"])) if (c["base"] != 1 or bt is not int) else ttb.import_data(p)
         evs.append({"op": "import", "args": {"tokens": c["tokens"], "base": c["base"]}, "ret": {"st": "ok", "obj": alpha_obj(back)}})
     except Exception as e:
         evs.append({"op": "import", "args": {"tokens": c["tokens"], "base": c["base"]},
